@@ -354,8 +354,12 @@ def gen_cases(ctx):
                 cases.append({"kind": "lml", "alg": a, "tg": None, "seed": rng.randrange(10 ** 6)})
             # ChangeTarget: same latent addresses, other observations / another program of the same shape
             if rng.random() < 0.6:
+                # ... or a new target that no longer observes one of the old observations (that address becomes a latent
+                # which importance on the new target samples afresh; the old observation must not stay pinned)
+                drop = rng.random() < 0.4
                 tg2 = {"spec": tg["spec"] if rng.random() < 0.5 else reshape_spec(rng, tg["spec"]),
-                       "c": [None if v is None else rng.randrange(tg["spec"]["sites"][i]["n"]) for i, v in enumerate(tg["c"])]}
+                       "c": [None if (v is None or (drop and rng.random() < 0.5)) else rng.randrange(tg["spec"]["sites"][i]["n"])
+                             for i, v in enumerate(tg["c"])]}
                 cases.append({"kind": "smc", "alg": ["change", a, tg2], "seed": rng.randrange(10 ** 6)})
                 if small and rng.random() < 0.5:
                     cases.append({"kind": "lml", "alg": a, "tg": tg2, "enc": True, "seed": rng.randrange(10 ** 6)})
